@@ -131,7 +131,7 @@ func VerifSetFriends(pubkeys [][]byte) {
 	FriendsAccess.Unlock()
 }
 
-func VerifNonce() [8]byte { return nonce }
+func VerifSetNonce(n [8]byte) { nonce = n }
 
 func VerifB2GCount() int { return len(BlocksToGet) }
 GO
